@@ -416,6 +416,41 @@ pub fn run(prop: &str, cases: &[String]) -> RunOut {
         let t: Vec<&str> = line.split_whitespace().collect();
         let (impl_line, err) = match t[0] {
             "tlvq" => run_query(&t, &mut out, line),
+            "bigalloc" => {
+                // bigalloc <tagidx> <extra>: allocate 2^32 + extra value bytes in a zeroed buffer that has the room for it
+                // (lazily mapped zero pages): the only way to reach the "length not representable" branch with enough room
+                let tag: usize = t[1].parse().unwrap();
+                let extra: usize = t[2].parse().unwrap();
+                let len = (1usize << 32) + extra;
+                // allocated by hand so that a machine without 4 GiB of address space to spare skips the case instead of aborting
+                let layout = std::alloc::Layout::from_size_align(len + 4096, 16).unwrap();
+                let ptr = unsafe { std::alloc::alloc_zeroed(layout) };
+                if ptr.is_null() {
+                    out.stats.bump("bigalloc:skipped");
+                    out.push(format!("err head={} | note: skipped, no room for a 4 GiB buffer", hex(&[0u8; 32])), Ok(()));
+                    continue;
+                }
+                struct Big(*mut u8, std::alloc::Layout);
+                impl Drop for Big { fn drop(&mut self) { unsafe { std::alloc::dealloc(self.0, self.1) } } }
+                let _guard = Big(ptr, layout);
+                let big: &mut [u8] = unsafe { std::slice::from_raw_parts_mut(ptr, len + 4096) };
+                fn go<const D: u64>(buf: &mut [u8], len: usize) -> Result<String, ProgramError> {
+                    let mut st = TlvStateMut::unpack(buf)?;
+                    let (s, rep) = st.alloc::<Tag<D>>(len, false)?;
+                    Ok(format!("{}:{rep}", s.len()))
+                }
+                let r = guarded(|| with_tag!(tag, go, &mut *big, len));
+                let head_zero = big[..4096].iter().all(|&x| x == 0);
+                let mut err = None;
+                match &r {
+                    None => err = Some("allocate panicked".to_string()),
+                    Some(Ok(_)) => err = Some("a length that does not fit the length field was allocated".to_string()),
+                    Some(Err(_)) => if !head_zero { err = Some("a failed allocate (length not representable) changed the buffer".to_string()) },
+                }
+                out.stats.bump("bigalloc");
+                out.stats.nontrivial_case(line);
+                (format!("{} head={}", match &r { None => "panic".to_string(), Some(Ok(x)) => format!("ok {x}"), Some(Err(x)) => e(x) }, hex(&big[..32])), err)
+            }
             "B" => {
                 // B <case> tlv <zero|raw> <hex initial buffer>
                 let b = unhex(t[4]);
@@ -508,6 +543,10 @@ pub fn generate_c02(tier: &str, rng: &mut Rng) -> Vec<String> {
 pub fn generate_hist(prop: &str, tier: &str, rng: &mut Rng) -> Vec<String> {
     let thorough = tier == "thorough";
     let mut v = vec![];
+    if prop == "C04" {
+        // the "length not representable" failure with enough room needs a buffer of more than 4 GiB
+        for extra in [0usize, 1, 4096] { v.push(format!("bigalloc {} {extra}", rng.below(8))); }
+    }
     let n_hist = if thorough { 30_000 } else { 300 };
     let max_ops = if thorough { 60 } else { 30 };
     for case in 0..n_hist {
